@@ -297,3 +297,31 @@ def prepare_mutated(ds0, labels, what, warm=None):
     observe_dataset(d)
     mutate_in_place(d, labels, what)
     return d
+
+
+def consensus_snapshot(c):
+    """content of a Consensus that must never change once it was returned."""
+    try:
+        rk = tuple(tuple(frozenset((e.type, e.value) for e in b) for b in r) for r in c.consensus_rankings)
+        feats = tuple(sorted((str(k), repr(v)) for k, v in c.features.items()))
+        return (rk, feats)
+    except Exception as e:      # unreadable now: also a change
+        return ('unreadable', repr(e))
+
+
+class EarlierResults:
+    """remembers the last result handed out per key and verifies, after the next call, that it was not changed."""
+
+    def __init__(self):
+        self.last = {}
+
+    def check_and_remember(self, ctx, key, consensus, case):
+        old = self.last.get(key)
+        if old is not None:
+            now = consensus_snapshot(old[0])
+            if now != old[1]:
+                ctx.violation('earlier-result-changed-by-a-later-call', dict(case, earlier_case=old[2]), repr(now)[:300],
+                              repr(old[1])[:300])
+        if consensus is not None:
+            # snapshot AFTER the score was read by the caller, so that the lazy score write is not counted as a change
+            self.last[key] = (consensus, consensus_snapshot(consensus), {k: case[k] for k in case if k in ('dataset', 'scheme', 'one')})
